@@ -359,7 +359,10 @@ def replay(cfg, label, env, case):
     try:
         scenario(V, rec, cfg)
     except Exception as e:
-        return dict(reproduced=None, detail="replay raised %s: %s" % (type(e).__name__, e))
+        from .common import _raised_in_repo
+        # the real wrapper raises for this history ("no call fails that would succeed on a fresh wrapper"): a violation
+        # whatever clause the solver's counterexample was about; an exception of the harness itself stays a harness error
+        return dict(reproduced=(True if _raised_in_repo(e) else None), detail="replay raised %s: %s" % (type(e).__name__, e))
     bad = [f for f in rec.failed if f[0] == label or label.startswith(f[0])]
     return dict(reproduced=bool(bad), detail=dict(failed=[f[0] + ": " + f[1] for f in rec.failed][:6]))
 
